@@ -36,8 +36,22 @@ def twin_history(ctx, r, n_cmds, legacy=False, torn=False):
             if req["cmd"] == "compact":
                 before = A.graph()
                 if torn and r.p(50):
-                    with open(A.log_path(), "ab") as f:
-                        f.write(b'{"type":"state","ts":"2026-01-01T00:00:00Z","data":{"id":"X')   # a crash-torn tail
+                    ready = oracles.ready_order(before["graph"], "") if "graph" in before else []
+                    if ready and r.p(50) and A.log_bytes().endswith(b"\n"):
+                        # a `claim` killed inside its write: the claim line is whole, the state line that follows is cut — the task is todo and
+                        # carries a claimant (readers show it that way; whatever compact writes must show the same)
+                        ts = "2026-01-01T00:00:00Z"
+                        blob = json.dumps({"type": "claim", "ts": ts, "data": {"id": ready[0], "agent_id": "cut-short", "ts": ts}}, separators=(",", ":")) + "\n" + \
+                               '{"type":"state","ts":"%s","data":{"id":"%s","sta' % (ts, ready[0])
+                        for S in (A, B):            # the twin without compactions has been through the same accident
+                            with open(S.log_path(), "ab") as f:
+                                f.write(blob.encode())
+                        trace.insert(len(trace) - 1, {"edit": "lines appended to the log: a claim of %s whose write was cut inside the state line that follows (no newline)" % ready[0], "bytes": blob})
+                    else:
+                        frag = b'{"type":"state","ts":"2026-01-01T00:00:00Z","data":{"id":"X'
+                        with open(A.log_path(), "ab") as f:
+                            f.write(frag)   # a crash-torn tail
+                        trace.insert(len(trace) - 1, {"edit": "torn fragment appended to the log, no newline", "bytes": frag.decode()})
                     before = A.graph()
                 ra = A.exec(argv, stdin, env=env)
                 after = A.graph()
@@ -79,7 +93,7 @@ def twin_history(ctx, r, n_cmds, legacy=False, torn=False):
                               "with vs without earlier compaction: exit %s/%s, first difference %s" % (ra["exit"], rb["exit"], d), {"trace": trace}); return
             m = ctx.model.ask({"op": "replay", "events": ga["events"], "pairs": [], "epic": ""})
             v.update(m.get("graph"))
-        ctx.sample({"history": [s["argv"] for s in trace[:8]]}, cap=3)
+        ctx.sample({"history": [s.get("argv", s.get("edit")) for s in trace[:8]]}, cap=3)
     finally:
         A.close(); B.close()
 
